@@ -605,6 +605,14 @@ func (tm *TileMatrix) UnmarshalJSONFromMap(data interface{}) error {
 	if err != nil {
 		return err
 	}
+	// a coordinate that is not a number (null) would silently be read as 0
+	if rawPointOfOrigin, ok := dataMap["pointOfOrigin"].([]interface{}); ok {
+		for _, rawCoordinate := range rawPointOfOrigin {
+			if _, ok := rawCoordinate.(float64); !ok {
+				return fmt.Errorf(`pointOfOrigin should consist of numbers: %v`, rawPointOfOrigin)
+			}
+		}
+	}
 	if rawVariableMatrixWidths, ok := dataMap["variableMatrixWidths"].([]interface{}); ok {
 		for _, rawVariableMatrixWidth := range rawVariableMatrixWidths {
 			if variableMatrixWidthMap, ok := rawVariableMatrixWidth.(map[string]interface{}); ok {
